@@ -1,5 +1,5 @@
 """Engine family checks: C01-C05, C10, C17, C18 (flyt.Run, flows, nesting, function nodes)."""
-import json, os, time
+import json, os, shutil, time
 from core import *
 
 ENGINE_INVS = "TypeOK AttemptBound NoEmptyAction StackShape InvC01 InvC02 InvC03 InvC04 InvC05 InvC10 InvC11E InvC17 InvC18"
@@ -10,9 +10,9 @@ PLAN = {
     "C01": dict(mc_q=[("single", 3, 4), ("singlenil", 2, 4), ("singlecancel", 2, 4), ("flowerr", 2, 3)],
                 mc_t=[("single", 5, 4), ("singlenil", 3, 4), ("singleeres", 3, 4), ("singlecancel", 3, 4), ("flowerr", 2, 4), ("flow2", 1, 5), ("flowcancel", 2, 4)],
                 gen_q=("single,plain,err,cancel", 120), gen_t=("single,plain,err,nest,cancel,cancelenum", 2500)),
-    "C02": dict(mc_q=[("single", 3, 4), ("singlecancel", 2, 4), ("flowretry", 1, 5)],
-                mc_t=[("single", 6, 4), ("singlecancel", 3, 4), ("flowerr", 2, 4), ("flowretry", 1, 6)],
-                gen_q=("single,plain,err,flowretry", 150), gen_t=("single,plain,err,flowretry", 4000)),
+    "C02": dict(mc_q=[("single", 3, 4), ("singlecancel", 2, 4), ("flowretry", 1, 5), ("zerobudget", 1, 4)],
+                mc_t=[("single", 6, 4), ("singlecancel", 3, 4), ("flowerr", 2, 4), ("flowretry", 1, 6), ("zerobudget", 1, 5)],
+                gen_q=("single,plain,err,flowretry,zerobudget", 130), gen_t=("single,plain,err,flowretry,zerobudget", 3500)),
     "C03": dict(mc_q=[("flow2", 1, 4), ("rerun", 1, 4), ("flow2empty", 1, 3)],
                 mc_t=[("flow2", 1, 6), ("rerun", 1, 5), ("flow2empty", 1, 5), ("nest", 1, 3)],
                 gen_q=("plain,nest", 200), gen_t=("plain,nest,err", 4000)),
@@ -38,9 +38,13 @@ PLAN = {
 }
 
 
+# families outside every property (conformance of code and specification only): their own invariants
+FAMILY_INVS = {"zerobudget": "TypeOK NoEmptyAction StackShape ZeroBudgetSkipsExec"}
+
+
 def mc_cfg(family, maxn, maxvisits):
     return ("SPECIFICATION MCSpec\nCONSTANTS\n  Family = \"%s\"\n  MaxN = %d\n  MaxVisits = %d\n  DoExport = TRUE\n"
-            "CONSTRAINT VisitBound\nINVARIANTS %s Export\nCHECK_DEADLOCK FALSE\n" % (family, maxn, maxvisits, ENGINE_INVS))
+            "CONSTRAINT VisitBound\nINVARIANTS %s Export\nCHECK_DEADLOCK FALSE\n" % (family, maxn, maxvisits, FAMILY_INVS.get(family, ENGINE_INVS)))
 
 
 def signature(pid, clauses, scn):
@@ -98,6 +102,27 @@ def collect(pid, tier, seed, d, binp):
     transitions += tv_trans
     unexplained = tv_n - len(tv_ok)
     log("trace validation against FlytEngine: %d of %d histories explained" % (len(tv_ok), tv_n))
+    if "zerobudget" in modes:
+        # budgets below one are outside every property: no verdict, but the specification must explain what the code does
+        shutil.copy(hist, hist + ".zero")
+        # (a flow with such a budget does nothing and answers the default action: on a cycle of its parent it spins for ever
+        # without a callback; the harness stops those runs by cancelling their context and marks them "spin")
+        spins = [0]
+
+        def zero_kept(r):
+            if r.get("fam") != "enginezero":
+                return False
+            if any(e["ev"] == "spin" for e in r["h"]):
+                spins[0] += 1
+                return False
+            return True
+        zn, zok, zst, ztr = trace_validate(d, "TraceEngine", hist + ".zero", keep=zero_kept, shards=2, limit=3000)
+        if spins[0]:
+            log("zero-budget scenarios that spin without a callback (stopped by the harness): %d" % spins[0])
+        states += zst; transitions += ztr
+        unexplained += zn - len(zok)
+        mc_info.append({"spec": "TraceEngine (retry budgets below one; conformance only, no verdict)", "histories": zn, "explained": len(zok)})
+        log("zero-budget histories explained by FlytEngine (no verdict): %d of %d" % (len(zok), zn))
 
     # 4. confirm every failure by re-executing its scenario on the real code, then classify
     violations, known_hits, unconfirmed = [], {}, 0
